@@ -5,7 +5,7 @@ import ast
 from ..program import AnalysisError, walk_local, dotted
 from ..analysis import Spec, src, class_const, const_value
 from ..deps import Deps
-from ..rules import (GWF, EXC, mpt, need_func, stores_to, raise_class,
+from ..rules import (inside, before, GWF, EXC, mpt, need_func, stores_to, raise_class,
                      chained_assign_value, is_const, explicit_exits)
 from . import common
 from .c04 import signature, diff_sig
@@ -103,7 +103,7 @@ def bypass_exits(prog, an, rep):
         'bypass_prefixes' in src(e))]
     prefix = []
     for t in prefix_tests:
-        prefix += c.branch(t, isinstance(t.ast.ops[0], ast.In))
+        prefix += c.branch(t, isinstance(t.matched.ops[0], ast.In))
         lv = d.leaves(t.ast, with_control=False)
         rep.check(lv == {'git.src_branch.prefix', 'settings.bypass_prefixes'},
                   'C11.DEP.bypass-prefix', f.qname + ': prefix bypass reads '
@@ -208,12 +208,12 @@ def issue_reference(prog, an, rep):
         tests = [t for t in an.test_nodes(
             f, lambda e: isinstance(e, ast.Attribute) and
             e.attr == 'allow_ticketless_pr')
-            if lp.lineno <= t.lineno <= lp.end_lineno]
+            if inside(lp, t)]
         rep.check(len(tests) == 1, R, f.qname + ': allow_ticketless_pr '
                   'tested per target', f.where(lp), 'found %d tests of '
                   'allow_ticketless_pr in the loop' % len(tests))
         for t in tests:
-            recv = t.ast.value
+            recv = t.matched.value
             tgt = lp.target
             rep.check(isinstance(recv, ast.Name) and
                       isinstance(tgt, ast.Name) and recv.id == tgt.id, R,
@@ -441,9 +441,9 @@ def upper_case(prog, an, rep):
     d = Deps(an, f)
     tests = [t for t in an.test_nodes(f, lambda e: isinstance(e,
                                                               ast.Compare))]
-    ok = any(isinstance(t.ast.ops[0], ast.NotIn) and
-             src(t.ast.left).endswith('src_branch.jira_project') and
-             src(t.ast.comparators[0]).endswith('settings.jira_keys')
+    ok = any(isinstance(t.matched.ops[0], ast.NotIn) and
+             src(t.matched.left).endswith('src_branch.jira_project') and
+             src(t.matched.comparators[0]).endswith('settings.jira_keys')
              for t in tests)
     rep.check(ok, 'C11.DEP.project', f.qname + ': project of the branch '
               'must be in settings.jira_keys', f.where(),
@@ -452,9 +452,9 @@ def upper_case(prog, an, rep):
     g = need_func(an, J + '.check_issue_type')
     tests = [t for t in an.test_nodes(g, lambda e: isinstance(e,
                                                               ast.Compare))]
-    ok = any(isinstance(t.ast.ops[0], ast.NotIn) and
-             'prefixes' in src(t.ast.comparators[0]) and
-             isinstance(t.ast.left, ast.Name) for t in tests)
+    ok = any(isinstance(t.matched.ops[0], ast.NotIn) and
+             'prefixes' in src(t.matched.comparators[0]) and
+             isinstance(t.matched.left, ast.Name) for t in tests)
     rep.check(ok, 'C11.DEP.issue-type', g.qname + ': issue type must be a '
               'configured one', g.where(), 'check_issue_type no longer '
               'tests the type against settings.prefixes')
